@@ -56,6 +56,7 @@ def corr_with_canon(ctx, exe, label="corr", timeout=3000, mode="corr", env=None)
 # them.  For the verdict (and for known_findings.txt) they are folded into one key per cause.
 FAMILIES = [
     (r"\.alldefault_record$", "C19.alldefault_record"),
+    (r"\.all_item_single_trailing_default$", "C19.all_item_single_trailing_default"),
     (r"\.all_item_trailing_default$", "C19.all_item_trailing_default"),
     (r"\.after_pending_default$", "C19.title_after_pending_default"),
     (r"^C19\.reparse\.\w+\.CODE\.err", "C19.code_keyword_end_token"),
